@@ -425,7 +425,7 @@ def expected_pick(row, d):
 
 class C05(Prop):
     id = "C05"
-    lean_modules = ["VivModel.Props.C05"]
+    lean_modules = ["VivModel.Props.C05", "VivModel.Props.C05Src"]
     build_targets = ["VivModel.Model.Stream", "VivModel.Model.Proto"]
     driver = "C05"
     technique = ("Lean 4 proof (induction over populations / weight rows, integer cross-multiplication) + differential correspondence "
